@@ -84,7 +84,7 @@ func getTargetByDifficulty(difficulty uint64) [8]byte {
 	}
 	// 2^64 - (2^64 / difficulty)
 	x := new(big.Int).Exp(common.Big2, common.Big64, nil)
-	y := big.NewInt(0).Quo(x, big.NewInt(int64(difficulty)))
+	y := big.NewInt(0).Quo(x, new(big.Int).SetUint64(difficulty))
 	x.Sub(x, y)
 	var target [8]byte
 	binary.LittleEndian.PutUint64(target[:], x.Uint64())
